@@ -6,6 +6,7 @@
 For each /verif/seeded/<id>/<mut>/patch.diff: git -C /repo apply, ./check <id> (quick), git -C /repo checkout -- .
 Writes seeded/RESULTS.json and prints a table.  /repo must be clean before and is clean afterwards."""
 import json, os, re, subprocess, sys
+os.environ['VERIF_EVIDENCE_DIR'] = os.path.join(os.path.dirname(os.path.abspath(__file__)), 'build', 'evidence_scratch')   # never overwrite committed evidence with runs on a patched tree
 V = os.path.dirname(os.path.abspath(__file__))
 claimed = {c['property_id'] for c in json.load(open(V + '/MANIFEST.json'))['checks']}
 
@@ -25,6 +26,8 @@ def main():
             continue
         for m in sorted(os.listdir(V + '/seeded/' + p)):
             d = '%s/seeded/%s/%s' % (V, p, m)
+            if os.environ.get('SEED_ONLY') and m != os.environ['SEED_ONLY']:
+                continue
             key = '%s/%s' % (p, m)
             if p not in claimed:
                 res[key] = {'verdict': 'not checked: property not claimed', 'obligations': []}
